@@ -230,7 +230,7 @@ class WorldC11(World):
                 d.update({'beta': rng.choice([1.0, 0.0]), 'is_adsorption': r() < 0.4,
                           'sticking_coeff': rng.choice([0.5, 0.1])})
             if kind == 'SurfaceReaction':
-                d.update({'id': rng.choice([None, 'r_0007']), 'direction': rng.choice([None, 'synthesis', 'cleavage'])})
+                d.update({'id': rng.choice([None, 'r_0007', '7', '007', '00012', '0042', 12, 'rxn-3']), 'direction': rng.choice([None, 'synthesis', 'cleavage'])})
             return d
         if kind in ('Reactions', 'PhaseDiagram'):
             n = rng.randint(1, 3)
